@@ -434,6 +434,12 @@ class ExprMixin:
         try:
             return self.coerce(st, sv, ty)
         except TypeMismatch:
+            if isinstance(sv.ty, TTuple) and isinstance(ty, TTuple) and len(sv.ty.items) == len(ty.items):
+                parts = [self.coerce_checked(st, x, t, node, what) for x, t in zip(sv.t, ty.items)]
+                return SV(ty, tuple(parts))
+            if isinstance(ty, TOpt) and not isinstance(sv.ty, TOpt) and sv.ty != TNone:
+                inner = self.coerce_checked(st, sv, ty.inner, node, what)
+                return coerce(inner, ty, self.classes)
             if isinstance(sv.ty, TOpt) and not isinstance(ty, TOpt):
                 inner = unbox(sv.ty.inner, sv.ty.val(sv.t))
                 r = self.coerce_checked(st, inner, ty, node, what)
@@ -800,6 +806,9 @@ class ExprMixin:
         values (compiled regexes, instances) are entities resolved by contracts."""
         node = mod.globals[name]
         q = mod.name + '.' + name
+        if q == 'info.Unbounded':
+            ty = parse_type('MaxOcc')
+            return SV(ty, ty.inject('unb'))      # the +infinity object of occurrence bounds
         if q in api.GLOBAL_CONSTS:
             ty = parse_type(api.GLOBAL_CONSTS[q])
             return SV(ty, z3.Const('global_' + q.replace('.', '_'), ty.sort()))
@@ -1252,6 +1261,11 @@ class ExprMixin:
                 dc, fty = self.classes.field(q, attr)
                 if dc is not None and dc not in owners:
                     owners.append(dc)
+            if len(owners) > 1:
+                # several unrelated subclasses declare the attribute: the one the object can be here
+                feas = [o for o in owners if self.spec_depth > 0 or self.feasible(st, self.isinstance_term(st, base, o), timeout_ms=2000)]
+                if len(feas) == 1:
+                    owners = feas
             if len(owners) == 1:
                 self.oblige(st, self.isinstance_term(st, base, owners[0]), 'safety', 'has-attr-' + attr, node=node,
                             info={'claim': 'object is a %s, which has attribute %s (AttributeError)' % (owners[0], attr)})
